@@ -115,3 +115,52 @@ Theorem C03_word_writer_reader : forall w, wr_ok w -> wr_bit_size w mod 8 = 0 ->
   let '(ws, tb) := bw_extend [] 0 (wr_drain_bytes w) in
   bw_ok ws tb /\ bw_bits ws tb = wr_bits w /\ tb = wr_bit_size w.
 Proof. exact wr_drain_bw_roundtrip. Qed.
+
+(* ---- the decompressor's header and chunk-metadata parse as its sequence of BitReader calls
+   (Model/RFile.v: read_aligned_bytes(4) = magic, data-type byte, Flags::parse_from, chunk start
+   byte, ChunkMetadata::parse_from incl. parse_prefixes / read_gcd / T::read_from, drain_empty_byte;
+   all on the 64-bit-word reader of Words.v) returns exactly what the bit-list model returns:
+   same flags / metadata, same new position, same error kind, never a panic ---- *)
+From QCo.Model Require Import RFile.
+From QCo.Lemmas Require Import RFileL.
+
+Theorem C03_word_level_header_parse : forall ws tb d i j, rd_inv ws tb i j ->
+  match rf_header ws tb d (i, j) with
+  | Ok (f, (i', j')) =>
+      read_header d (64*i+j) (rd_stream ws tb (64*i+j)) = Ok (f, rd_stream ws tb (64*i'+j'))
+      /\ rd_inv ws tb i' j'
+  | Err k => read_header d (64*i+j) (rd_stream ws tb (64*i+j)) = Err k
+  | Panic => False end.
+Proof. exact rf_header_eq. Qed.
+
+Theorem C03_word_level_chunk_meta_parse : forall ws tb d f i j, rd_inv ws tb i j ->
+  match rf_chunk_meta ws tb d f (i, j) with
+  | Ok (m, (i', j')) =>
+      read_chunk_meta d f (64*i+j) (rd_stream ws tb (64*i+j)) = Ok (m, rd_stream ws tb (64*i'+j'))
+      /\ rd_inv ws tb i' j'
+  | Err k => read_chunk_meta d f (64*i+j) (rd_stream ws tb (64*i+j)) = Err k
+  | Panic => False end.
+Proof. exact rf_chunk_meta_eq. Qed.
+
+(* ---- the Huffman lookup as the real data structure and code (Model/Huff.v: HuffmanTable built
+   by build_from_prefixes_recursive with strides of up to 6 bits, search_with_reader over
+   read_prefix_table_idx in its three word-alignment cases, rewind) is what Codec.read_code_at
+   abstracts, on every table that passed validation, at every position and amount of data ---- *)
+From QCo.Model Require Import Huff.
+From QCo.Lemmas Require Import HuffL.
+
+Theorem C03_huffman_table_builds : forall w ps, table_ok ps = true -> exists tbl, hfrom w ps = Ok tbl.
+Proof. exact hfrom_total. Qed.
+
+Theorem C03_huffman_search_is_read_code_at : forall w ps tbl ws tb i j,
+  table_ok ps = true -> ps <> [] -> (max_code_len ps <= 40)%nat ->
+  hfrom w ps = Ok tbl ->
+  bw_ok ws tb -> j <= 64 -> 64 * i + j <= tb ->
+  match hsearch_checked ws i j tb tbl with
+  | Ok (p, (i', j')) =>
+      read_code_at tb ps (rd_stream ws tb (64 * i + j)) = Ok (p, rd_stream ws tb (64 * i' + j'))
+      /\ 64 * i' + j' = 64 * i + j + Nlen (p_code p) /\ j' <= 64 /\ 64 * i' + j' <= tb
+  | Err k => read_code_at tb ps (rd_stream ws tb (64 * i + j)) = Err k
+  | Panic => False
+  end.
+Proof. exact hsearch_eq_read_code_at. Qed.
